@@ -85,22 +85,51 @@ Arguments AStallReq {R}.
 Arguments AStallReply {R}.
 Arguments APass {R} _.
 
-(* net/rpc server: "if errmsg != "" { resp.Error = errmsg; reply = invalidRequest }" -- an error whose
-   message is empty is sent as a result.  jsonrpc client: "if c.resp.Error != nil || c.resp.Result == nil"
-   -- a null result is an (invalid) error.  [isnull r]: r is encoded as JSON null. *)
-Definition outcome_of {R} (isnull : R -> bool) (a : attempt R) : outcome R :=
+(* What net/rpc and the Go jsonrpc client make of the (reply, error) pair that a registered method
+   returns -- still true of the libraries, whatever the server does:
+     net/rpc server: "if errmsg != "" { resp.Error = errmsg; reply = invalidRequest }" -- an error whose
+       message is empty is sent as a RESULT;
+     jsonrpc client: "if c.resp.Error != nil || c.resp.Result == nil" -- a null result is an (invalid) error.
+   [isnull r]: r is encoded as JSON null. *)
+Definition rpc_outcome {R} (isnull : R -> bool) (h : hres R) : outcome R :=
+  match h with
+  | HErr false _ => CallFail true
+  | HOk r | HErr true r => if isnull r then CallFail true else Ok r
+  end.
+
+(* SocketBabbleProxyServer.CommitBlock / GetSnapshot / Restore / OnStateChanged after ebb9c0a + faf0201:
+     *reply, err = handler(...); err = rpcError(name, err)      -- the message is never empty
+     if *reply == nil { *reply = []byte{} }                      -- never JSON null ([denull]; the identity
+                                                                    for the struct-valued replies)
+   This is what the method hands to net/rpc. *)
+Definition server_method {R} (denull : R -> R) (h : hres R) : hres R :=
+  match h with
+  | HOk r => HOk (denull r)
+  | HErr _ r => HErr false (denull r)
+  end.
+
+Definition outcome_of {R} (isnull : R -> bool) (denull : R -> R) (a : attempt R) : outcome R :=
   match a with
   | ADown => DialFail
   | ADropReq => CallFail false
   | ADropReply => CallFail true
   | AStallReq => Timeout false
   | AStallReply => Timeout true
-  | APass (HErr false _) => CallFail true
-  | APass (HOk r) | APass (HErr true r) => if isnull r then CallFail true else Ok r
+  | APass h => rpc_outcome isnull (server_method denull h)
   end.
 
-Definition call_attempts {R} (isnull : R -> bool) (conn : bool) (l : list (attempt R)) : cres R :=
-  call conn (map (outcome_of isnull) l).
+Definition call_attempts {R} (isnull : R -> bool) (denull : R -> R) (conn : bool) (l : list (attempt R)) : cres R :=
+  call conn (map (outcome_of isnull denull) l).
+
+(* a server that hands the handler's return to net/rpc unchanged (the code before ebb9c0a / faf0201, or an
+   application-side server written against another library): only the library conventions apply *)
+Definition outcome_of_raw {R} (isnull : R -> bool) (a : attempt R) : outcome R :=
+  match a with
+  | APass h => rpc_outcome isnull h
+  | _ => outcome_of isnull (fun r => r) a
+  end.
+Definition call_attempts_raw {R} (isnull : R -> bool) (conn : bool) (l : list (attempt R)) : cres R :=
+  call conn (map (outcome_of_raw isnull) l).
 
 (* an attempt in which the application handled the call successfully *)
 Definition handled {R} (a : attempt R) : bool :=
@@ -314,6 +343,25 @@ Definition strip_body (b : body) : body :=
          (omap strip_itx (bo_itxs b)) (omap strip_receipt (bo_receipts b)).
 Definition strip_block (b : block) : block := mkBlock (strip_body (bl_body b)) (bl_sigs b) None [] false.
 Definition strip_cresp (c : cresp) : cresp := mkCresp (cr_state c) (omap strip_receipt (cr_receipts c)).
+
+(* the byte-slice replies (snapshot, state hash): nil is JSON null; the server sends []byte{} instead *)
+Definition bytes_null (b : bytes) : bool := match b with None => true | Some _ => false end.
+Definition bytes_denull (b : bytes) : bytes := match b with None => Some [] | Some l => Some l end.
+
+(* ---- peers.NewPeer after b2c4118 ---- *)
+(* strings.ToValidUTF8(s, "\uFFFD"): every maximal run of stray bytes becomes ONE U+FFFD *)
+Fixpoint to_valid (s : gstr) : gstr :=
+  match s with
+  | [] => []
+  | Good c :: r => Good c :: to_valid r
+  | Bad _ :: r =>
+    match r with
+    | Bad _ :: _ => to_valid r
+    | _ => Good 65533 :: to_valid r
+    end
+  end.
+(* NewPeer(pubKeyHex, netAddr, moniker): address and moniker normalised, the key kept as given *)
+Definition new_peer (key net mon : gstr) : peer := mkPeer (to_valid net) key (to_valid mon) 0.
 
 (* ---- well-formedness ---- *)
 Definition byte_ok (z : Z) : bool := (0 <=? z) && (z <? 256).
